@@ -30,7 +30,8 @@ MODES = ["elementwise", "pairwise", "pairwise_reversed"]
 
 # ------------------------------------------------------------------ primitive level: ND vs numpy
 PRIMS = ["T", "expand_range", "squeeze", "swapaxes", "roll", "sub", "select", "slice", "set_sub", "reshape",
-         "flatten_outer", "stack", "concat", "zip", "matmul", "expand_unit_axes", "squeeze_excess"]
+         "flatten_outer", "stack", "concat", "zip", "matmul", "expand_unit_axes", "squeeze_excess",
+         "select_last", "slice_last", "delete_last", "set_last"]
 
 
 def _rs(rng, maxrank=5, minrank=0):
@@ -132,6 +133,31 @@ def gen_prim(rng, n):
             s = _rs(rng, 5)
             u = rng.randint(0, 3)
             inp.update(a=N.enc(N.small(rng, s)), unit=u, other=rng.randint(0, 4))
+        elif op == "select_last":
+            s = _rs(rng, 4) + [rng.randint(1, 4)]
+            inp.update(a=N.enc(N.small(rng, s)), j=rng.randrange(s[-1]))
+        elif op == "slice_last":
+            s = _rs(rng, 4) + [rng.randint(1, 4)]
+            lo = rng.randint(0, s[-1])
+            inp.update(a=N.enc(N.small(rng, s)), lo=lo, hi=rng.randint(lo, s[-1]))
+        elif op == "delete_last":
+            s = _rs(rng, 4) + [rng.randint(1, 4)]
+            inp.update(a=N.enc(N.small(rng, s)), c=rng.randrange(s[-1]))
+        elif op == "set_last":
+            s = _rs(rng, 3) + [rng.randint(1, 4)]
+            how = rng.choice(["const", "index", "slice", "idx"])
+            inp.update(out=N.enc(N.small(rng, s)), how=how)
+            if how == "const":
+                inp.update(j=rng.randrange(s[-1]), x=str(rng.randint(-3, 3)))
+            elif how == "index":
+                inp.update(j=rng.randrange(s[-1]), v=N.enc(N.small(rng, s[:-1])))
+            elif how == "slice":
+                lo = rng.randint(0, s[-1])
+                hi = rng.randint(lo, s[-1])
+                inp.update(lo=lo, hi=hi, v=N.enc(N.small(rng, s[:-1] + [hi - lo])))
+            else:
+                idx = rng.sample(range(s[-1]), rng.randint(0, s[-1]))
+                inp.update(idx=idx, v=N.enc(N.small(rng, s[:-1] + [len(idx)])))
         yield inp
 
 
@@ -181,6 +207,23 @@ def run_prim(inp):
         r = utils.expand_unit_axes(a, inp["unit"], inp["new"])
     elif op == "squeeze_excess":
         r = utils.squeeze_excess(a, inp["unit"], inp["other"])
+    elif op == "select_last":
+        r = a[..., inp["j"]]
+    elif op == "slice_last":
+        r = a[..., inp["lo"]:inp["hi"]]
+    elif op == "delete_last":
+        r = np.delete(a, inp["c"], axis=-1)
+    elif op == "set_last":
+        r = _np(inp["out"]).copy()
+        how = inp["how"]
+        if how == "const":
+            r[..., inp["j"]] = float(inp["x"])
+        elif how == "index":
+            r[..., inp["j"]] = _np(inp["v"])
+        elif how == "slice":
+            r[..., inp["lo"]:inp["hi"]] = _np(inp["v"])
+        else:
+            r[..., np.array(inp["idx"], dtype=int)] = _np(inp["v"])
     return {"r": N.enc(r)}
 
 
@@ -329,14 +372,38 @@ from vlib import q as Q
 def gen_vec(rng, n):
     shapes = N.all_shapes(3)
     for c in range(n):
-        op = ["p2k", "k2p", "normalize", "scale_last"][c % 4]
+        op = ["p2k", "k2p", "normalize", "scale_last", "p2h", "h2p", "affine_coords", "projective_coords", "segment_aux"][c % 9]
         o = rng.choice(shapes)
         d = rng.choice([1, 2, 3])
         cnt = int(np.prod(o)) if o else 1
+        if op == "segment_aux":
+            from props import _hist as HI
+            yield {"op": op, "e": HI._rcomp(rng, "segment", o, rng.choice([2, 3]))}
+            continue
         if op == "scale_last":
             x = N.small(rng, o + [d])
             f = N.small(rng, o if o else [1])
             yield {"op": op, "x": N.enc(x), "f": N.enc(f)}
+            continue
+        if op in ("p2h", "h2p", "affine_coords", "projective_coords"):
+            flat = []
+            for _ in range(cnt):
+                p = Q.rball(rng, d, F(9, 10), 6)
+                if op == "p2h":
+                    flat += p
+                elif op == "h2p":
+                    flat += [F(rng.randint(-6, 6), rng.randint(1, 4)) for _ in range(d - 1)] + [F(rng.randint(1, 8), rng.randint(1, 4))]
+                elif op == "affine_coords":
+                    flat += [F(rng.choice([-3, -2, -1, 1, 2, 3]), rng.randint(1, 3)) for _ in range(d + 1)]      # every chart coordinate non-zero
+                else:
+                    flat += [F(rng.randint(-4, 4), rng.randint(1, 3)) for _ in range(d)]
+            w = d + 1 if op == "affine_coords" else d
+            inp = {"op": op, "x": N.enc_q(o + [w], flat)}
+            if op == "affine_coords":
+                inp["c"] = rng.randrange(d + 1)
+            if op == "projective_coords":
+                inp["c"] = rng.randint(0, d)
+            yield inp
             continue
         flat = []
         for _ in range(cnt):
@@ -370,6 +437,17 @@ def run_vec(inp):
         r = H.poincare_to_kleinian(N.dec(inp["x"]))
     elif op == "k2p":
         r = H.kleinian_to_poincare(N.dec(inp["x"]))
+    elif op == "segment_aux":
+        with np.errstate(all="ignore"):
+            r = H.Segment(N.dec(inp["e"])).aux_data
+    elif op == "p2h":
+        r = H.poincare_to_halfspace(N.dec(inp["x"]))
+    elif op == "h2p":
+        r = H.halfspace_to_poincare(N.dec(inp["x"]))
+    elif op == "affine_coords":
+        r = P.affine_coords(N.dec(inp["x"]), chart_index=inp["c"])
+    elif op == "projective_coords":
+        r = P.projective_coords(N.dec(inp["x"]), chart_index=inp["c"])
     else:
         v = N.dec(inp["v"])
         utils.normalize(v, N.dec(inp["form"]))
@@ -407,14 +485,14 @@ def judge_vec(inp, obs, lr):
             if not ok:
                 return {"expected": {"model_row": b.tolist()}, "observed": {"impl_row": a.tolist()}, "tags": {"op": "normalize", "null_row": nn == 0}}
         return None
-    if not O.allclose(r, m, 1e-11):
+    if not O.allclose(r, m, 1e-8 if inp["op"] == "segment_aux" else 1e-11):
         return {"expected": {"model": m.tolist()}, "observed": obs["r"], "tags": {"op": inp["op"]}}
     return None
 
 
 CLAUSES = [
     Clause("nd_primitives", "corr", gen_prim, run_prim, judge_eq, lean=lean_prim, site="numpy (statement of array semantics)",
-           budget={"quick": 17 * 40, "thorough": 17 * 600},
+           budget={"quick": 21 * 36, "thorough": 21 * 500},
            what="each ND primitive (T, expand_dims, squeeze, swapaxes, roll, a[idx], take, slice, a[idx]=v, reshape, flatten, stack, "
                 "concatenate, broadcasting ufunc, batched @, expand_unit_axes, squeeze_excess) vs numpy on random shapes of rank <= 5: exact equality"),
     Clause("matrix_product_corr", "corr", gen_mp, run_mp, judge_mp, lean=lean_mp, site="utils.matrix_product",
@@ -428,8 +506,9 @@ CLAUSES = [
 
 CLAUSES += [
     Clause("vectorised_corr", "corr", gen_vec, run_vec, judge_vec, lean=lean_vec, site="hyperbolic.poincare_to_kleinian/kleinian_to_poincare, utils.normalize, (x.T*f.T).T",
-           budget={"quick": 240, "thorough": 4000},
-           what="the literal ND models of the vectorised last-axis formulas (poincare_to_kleinian, kleinian_to_poincare, in-place utils.normalize incl. null rows, the (x.T*f.T).T idiom) "
+           budget={"quick": 360, "thorough": 6000},
+           what="the literal ND models of the vectorised last-axis formulas (poincare_to_kleinian, kleinian_to_poincare, poincare_to_halfspace, halfspace_to_poincare, affine_coords and "
+                "projective_coords in every chart, Segment._compute_aux_data, in-place utils.normalize incl. null rows, the (x.T*f.T).T idiom) "
                 "vs the numpy code on exact rational inputs of outer rank 0-3 (rank-0: the atleast_1d branch)"),
 ]
 CLAUSES += O.c04_oracles()
